@@ -2,7 +2,7 @@
    and MkdirAll against their specifications [spec_resolve] and [make_dirs]. *)
 From Coq Require Import List NArith Bool Lia ZifyN ZifyNat ZifyBool.
 From FS Require Import Sx Model.Path Model.SymMode Model.Copier Model.CopySpec Proofs.Lex
-  Proofs.CopierP Proofs.CopyOpsP Proofs.CopyDentP.
+  Proofs.CopierP Proofs.CopyOpsP Proofs.CopyDentP Proofs.CopyLinkP.
 Import ListNotations.
 Open Scope N_scope.
 Open Scope bool_scope.
@@ -11,6 +11,10 @@ Definition xerr_of (e : err) : xerr := match e with EScope => XScope | _ => XOth
 
 Section Mk.
   Variable o : copts.
+  Variable ms : option (list bitcmd).
+  Variable multi : N -> bool.
+  Variable sdof : N -> dent.
+  Notation Lk := (Lk o ms multi sdof).
   Notation Inv := (Inv o).
   Notation touch := (touch o).
 
@@ -351,20 +355,20 @@ Section Mk.
         repeat split; auto; discriminate.
   Qed.
 
-  Lemma mkdir_all_spec p : forall st X, Inv (c_fs st) X -> x_isdir (X []) = true ->
+  Lemma mkdir_all_spec p : forall st X, Inv (c_fs st) X -> Lk (c_fs st) X (c_imap st) -> x_isdir (X []) = true ->
     match make_dirs o [] p X with
     | inl X' => exists st' cr, mkdir_all o p st = (st', None, cr) /\ Inv (c_fs st') X' /\ same_rest st' st /\
-                               mk_new cr X' /\ mk_old cr X X'
+                               mk_new cr X' /\ mk_old cr X X' /\ Lk (c_fs st') X' (c_imap st')
     | inr xe => exists st' e, mkdir_all o p st = (st', Some e, []) /\ xerr_of e = xe /\ (e = EScope \/ e = EOther) /\
-                              same_rest st' st /\ exists X', Inv (c_fs st') X'
+                              same_rest st' st /\ exists X', Inv (c_fs st') X' /\ Lk (c_fs st') X' (c_imap st')
     end.
   Proof.
-    induction p as [|c p IH] using rev_ind; intros st X I Hroot.
+    induction p as [|c p IH] using rev_ind; intros st X I L Hroot.
     - rewrite make_dirs_nil, mkdir_all_nil. pose proof (inv_lstat _ _ _ [] I) as HL.
       unfold x_isdir in Hroot. destruct (X []) as [e|]; [|discriminate].
       destruct (lstat (c_fs st) []) as [d|]; [|contradiction].
       rewrite (dm_is_dir _ _ _ HL), Hroot. cbn [negb].
-      exists st, []. split; [auto|split; [auto|split; [apply same_rest_refl|split]]].
+      exists st, []. split; [auto|split; [auto|split; [apply same_rest_refl|split; [|split; auto]]]].
       + intros q [].
       + intros q e0 H. right. exists e0. auto.
     - rewrite mkdir_all_snoc, make_dirs_app. simpl app.
@@ -381,7 +385,7 @@ Section Mk.
         destruct (X p) as [ep|]; [|discriminate]. rewrite Hp. cbn [negb]. simpl app. rewrite EX, make_dirs_nil, EX.
         rewrite (dm_is_dir _ _ _ HL), (dm_is_lnk _ _ HL).
         destruct (is_dir (x_d e)); cbn [negb].
-        * exists st, []. split; [auto|split; [auto|split; [apply same_rest_refl|split]]].
+        * exists st, []. split; [auto|split; [auto|split; [apply same_rest_refl|split; [|split; auto]]]].
           -- intros q [].
           -- intros q e0 H. right. exists e0. auto.
         * exists st, (if is_lnk (x_d e) then EScope else EOther).
@@ -389,9 +393,9 @@ Section Mk.
           split; [apply same_rest_refl|eauto].
       + (* create after the parent *)
         destruct (X (p ++ [c])) as [e|] eqn:EX; [contradiction|].
-        specialize (IH st X I Hroot).
+        specialize (IH st X I L Hroot).
         destruct (make_dirs o [] p X) as [X1|xe] eqn:EM.
-        * destruct IH as (st1 & cr & E1 & I1 & R1 & N1 & O1). rewrite E1. simpl app.
+        * destruct IH as (st1 & cr & E1 & I1 & R1 & N1 & O1 & L1). rewrite E1. simpl app.
           pose proof (make_dirs_final_dir p [] X X1 EM) as Hfd. simpl in Hfd.
           assert (HT1 : X1 (p ++ [c]) = None).
           { rewrite (make_dirs_frame _ _ _ _ EM); auto. rewrite app_length. simpl. lia. }
@@ -402,8 +406,8 @@ Section Mk.
           cbv zeta. unfold k_mkdir.
           destruct (inv_k_new o _ _ p c (o_umask o) S_IFDIR
                       (N.land (N.land (match o_mode o with Some m => m | None => 493 end) 511) 1023) 0 [] [] I1 HT1 Hfd')
-            as (fs1 & j & E2 & Hj & Hjd & Hn2 & Hi2 & Hu2 & I2).
-          fold T in E2, Hn2, Hu2, I2. rewrite E2.
+            as (fs1 & j & E2 & Hj & Hjd & Hn2 & Hi2 & Hu2 & Hf2 & I2).
+          fold T in E2, Hn2, Hu2, Hf2, I2. rewrite E2.
           destruct (i_some _ _ _ I1 _ _ Hj) as (ep' & Ep' & Hmp & _). rewrite Ep in Ep'. inversion Ep'; subst ep'.
           destruct Hmp as (Hm1 & _ & Hm3 & _).
           destruct (dm_made_dir fs1 T (x_d ep) (inodes (c_fs st1) j) (next (c_fs st1)) Hm1 Hm3 Hi2 Hn2)
@@ -411,13 +415,23 @@ Section Mk.
           eexists. exists (cr ++ [T]). split; [reflexivity|]. cbn [with_fs c_fs].
           set (md := made_dir o T (x_d ep)) in *.
           destruct (made_dir_facts T (x_d ep)) as (F1 & F2 & F3). fold md in F1, F2, F3.
-          split; [|split; [|split]].
+          set (d0 := new_dent (o_umask o) (inodes (c_fs st1) j) S_IFDIR
+                       (N.land (N.land (match o_mode o with Some m => m | None => 493 end) 511) 1023) 0 [] []) in *.
+          specialize (I2 (xex d0 (KNew T) false) (dm_xex _ _ _ _) (or_introl eq_refl)).
+          assert (EVx : forall q, xupd T (Some md) (touch p X1) q = xupd T (Some md) (xupd T (Some (xex d0 (KNew T) false)) (touch p X1)) q).
+          { intro q. unfold xupd. destruct (path_eqb q T); auto. }
+          split; [|split; [|split; [|split]]].
+          5:{ cbn [with_fs c_imap].
+              eapply Lk_names_ext; [intro q; rewrite (fe_names _ _ Q1); reflexivity|].
+              eapply Lk_ext; [exact EVx|].
+              eapply (Lk_upd o ms multi sdof fs1 _ _ _ T (xex d0 (KNew T) false) md).
+              - eapply (Lk_new o ms multi sdof (c_fs st1)); eauto.
+              - reflexivity.
+              - apply xupd_same.
+              - discriminate.
+              - rewrite F2. discriminate. }
           -- eapply Inv_fs_ext; [apply fs_eqv_sym; exact Q1|].
-             set (d0 := new_dent (o_umask o) (inodes (c_fs st1) j) S_IFDIR
-                          (N.land (N.land (match o_mode o with Some m => m | None => 493 end) 511) 1023) 0 [] []) in *.
-             specialize (I2 (xex d0 (KNew T) false) (dm_xex _ _ _ _) eq_refl).
-             eapply Inv_ext; [|eapply (inv_upd1 o fs1 _ T _ f (xex d0 (KNew T) false) md I2 Hn2 Hu2)].
-             ++ intro q. unfold xupd. destruct (path_eqb q T); auto.
+             eapply Inv_ext; [exact EVx|eapply (inv_upd1 o fs1 _ T _ f (xex d0 (KNew T) false) md I2 Hn2 Hu2)].
              ++ apply xupd_same.
              ++ rewrite Hi2. auto.
              ++ rewrite Hi2. auto.
